@@ -1072,8 +1072,56 @@ def _roots(B, l, seen):
     return seen
 
 
+CMP_TRAITS = ("PartialEq", "Eq", "PartialOrd", "Ord", "Hash", "Debug", "Display", "Borrow", "AsRef")
+
+
+def rule_impl_unsized(ctx, rep):
+    """"For every pair of values" includes values of unsized types: a handle or payload type whose own definition admits an unsized
+    payload (`Arc<T: ?Sized>`, `ArcBorrow<'a, T: ?Sized>`, `HeaderSlice<H, T: ?Sized>`) hands out `Arc<[T]>`, `ArcBorrow<str>`,
+    `Arc<HeaderSlice<H, [T]>>`, `Arc<dyn Trait>`; a comparison / hash / format impl written for the fully generic type that demands
+    `T: Sized` silently does not exist for them (the bound usually arrives implicitly, by moving code into a `Sized`-only impl block
+    or dropping the `?Sized`). Judged on the predicates rustc records for each impl."""
+    n = 0
+    for tag, F, E in ctx.each(da=False):
+        adts = {a["path"]: a for a in F.raw["adts"]}
+        for im in F.impls:
+            tr = (im.get("trait") or "").split("::")[-1]
+            if tr not in CMP_TRAITS:
+                continue
+            st = F.ty(im["self_ty"])
+            if st["k"] != "adt" or st.get("path") not in adts:
+                continue
+            a = adts[st["path"]]
+            gens = [g for g in a.get("generics", []) if g.get("kind") == "type"]
+            targs = [x["t"] for x in st.get("args", []) if "t" in x]
+            if len(gens) != len(targs):
+                continue
+            adt_sized = set()
+            for p in a.get("preds", []):
+                if p["kind"] == "trait" and p["trait"] == "core::marker::Sized":
+                    adt_sized.add(p["s"].split(":")[0].strip())
+            free = [(g["name"], t) for g, t in zip(gens, targs) if g["name"] not in adt_sized and F.ty(t)["k"] == "param"]
+            if not free:
+                continue
+            n += 1
+            ik = "%s for %s" % (tr, F.ts(im["self_ty"]))
+            lost = []
+            for p in im["preds"]:
+                if p["kind"] == "trait" and p["trait"] == "core::marker::Sized" and F.ty(p["self"])["k"] == "param":
+                    nm = F.ty(p["self"])["name"]
+                    if any(F.ty(t)["name"] == nm for _g, t in free):
+                        lost.append(nm)
+            if lost:
+                rep.bad("R-IMPL-UNSIZED", ik, "`%s` admits an unsized `%s` (the crate hands out such handles: slices, str, header-slices, trait objects) but this `%s` impl requires `%s: Sized`: for those payloads the handle cannot be compared / hashed / formatted at all although the value it holds can" % (a["name"], "`, `".join(lost), tr, lost[0]), "%s:%s" % (im["span"]["file"], im["span"]["line"]), tag)
+            else:
+                rep.ok("R-IMPL-UNSIZED", ik, cfg=tag)
+    rep.floor("R-IMPL-UNSIZED", 15, "Arc's ten impls, ArcBorrow's three, HeaderSlice's six (+ the length-carrying orderings) in every configuration")
+    return n
+
+
 def run(ctx, rep):
     rule_deleg(ctx, rep)
+    rule_impl_unsized(ctx, rep)
     rule_whole(ctx, rep)
     rule_foot(ctx, rep)
     rule_lex(ctx, rep)
